@@ -15,6 +15,7 @@
 """
 import json
 import os
+import re
 
 import vlib
 from vlib import MachineryError, log
@@ -57,7 +58,7 @@ def S(*xs):
 
 def consts(nsrc, rx, conds, vals, sync, maxbars, maxtrig, **kw):
     c = dict(NSrc=nsrc, Reactions=set(rx), Conds=set(conds), TrigValues=set(vals), SyncModes=set(sync),
-             MaxBars=maxbars, MaxTrig=maxtrig)
+             MaxBars=maxbars, MaxTrig=maxtrig, GuardValues=set())
     c.update(kw)
     return c
 
@@ -68,6 +69,8 @@ def mc_configs(tier):
         ("mc_all", consts(2, ALLRX, [S(1), S(1, 2)], [0, 1, 2], [False, True], 2, 1)),
         # one source, three triggers: order of reports, repeated suspend / release cycles
         ("mc_order", consts(1, ["Noop", "Suspend"], [S(1), S(1, 2), S(2)], [1, 2], [False], 2, 3)),
+        # cleanup guards: a sync trigger fired from a destructor while the source unwinds
+        ("mc_unwind", consts(1, ALLRX, [S(1), S(2)], [1, 2], [False, True], 2, 2, GuardValues={2})),
     ]
     if tier == "thorough":
         cfgs += [
@@ -75,6 +78,7 @@ def mc_configs(tier):
             ("mc_3src", consts(3, ["Noop", "Suspend"], [S(1), S(1, 2)], [1, 2], [False], 2, 1)),
             ("mc_2x2", consts(2, ALLRX, [S(1), S(1, 2)], [0, 1], [False, True], 2, 2)),
             ("mc_3bars", consts(1, ["Noop", "Suspend"], [S(1), S(1, 2), S(2)], [1, 2], [False], 3, 2)),
+            ("mc_unwind3", consts(2, ALLRX, [S(1), S(1, 2)], [0, 1, 2], [False, True], 2, 1, GuardValues={1, 2})),
         ]
     return cfgs
 
@@ -85,6 +89,9 @@ def gen_configs(tier):
         ("gen_all", consts(2, ALLRX, [S(1), S(1, 2)], [0, 1, 2], [False, True], 2, 2, MaxOps=4)),
         # overlap / order: one source, up to three async triggers, two barriers, 6 operations
         ("gen_order", consts(1, ["Noop", "Suspend"], [S(1), S(1, 2)], [1, 2], [False], 2, 3, MaxOps=6)),
+        # a cleanup guard triggers while its source unwinds from a call that a Panic barrier (or trigger_noop on a
+        # Suspend barrier) panicked: Panic / Noop / Suspend barriers over values 1, 2; guard value 2
+        ("gen_unwind", consts(1, ALLRX, [S(1), S(2)], [1, 2], [False, True], 2, 2, MaxOps=4 if tier == "quick" else 5, GuardValues={2})),
         # suspension: two sources on one Suspend/Noop barrier, 7 operations
         ("gen_suspend", consts(2, ["Suspend", "Noop"], [S(1, 2)], [1], [False], 1, 2, MaxOps=8)),
     ]
@@ -119,7 +126,7 @@ def nsrc_of(rc):
 
 
 def trace_consts(nsrc):
-    return consts(nsrc, ALLRX, [], range(0, 8), [False, True], 1000000, 1000000)
+    return consts(nsrc, ALLRX, [], range(0, 8), [False, True], 1000000, 1000000, GuardValues=set(range(0, 8)))
 
 
 def validate_trace(path, nsrc, tag, impl=True):
@@ -182,6 +189,8 @@ def run(pid, tier, seed, replay=None):
             need.append(("TriggerNoop", "TriggerNoopAny"))
         if "Panic" in c["Reactions"]:
             need.append(("Panicked", "PanickedAny"))
+        if c["GuardValues"]:
+            need += [("UnwindTrigger", "UnwindAny"), ("UnwindReturn", "UnwindAny"), ("UnwindPanicked", "UnwindAny")]
         missing = [a for a in need if r.coverage and not any(r.coverage.get(x, 0) > 0 for x in a)]
         if missing or not r.coverage:
             raise MachineryError(f"vacuity: actions never taken in {name}: {missing or 'no coverage output'}")
@@ -211,8 +220,7 @@ def run(pid, tier, seed, replay=None):
         ck.nontrivial += s["nontrivial"]
         for smp in s["samples"][:1]:
             ck.sample({"kind": "tlc behaviour replayed on turmoil::barriers", "config": name, **smp})
-        for d in s["divergences"][:5]:
-            judge_divergence(ck, name, c, d)
+        judge_divergences(ck, name, c, s, w)
         ck.impl_drift += s["divergent"]
 
     # 3. code -> spec -------------------------------------------------------
@@ -311,18 +319,46 @@ def corrupt_ret(src, dst):
     return False
 
 
-def judge_divergence(ck, name, c, d):
-    """The real code left the ImplSpec on a TLC behaviour: ask the PropSpec."""
-    tr = d.get("trace")
-    pr, _ = validate_trace(tr, c["NSrc"], f"{PID}_div", impl=False)
-    if rejected(pr):
+def reject_position(pr):
+    """Record index (1-based) at which PropTrace stopped: the unmatched record, or the record whose
+    consumption violated an invariant (= l - 1 in the last state of TLC's counterexample)."""
+    if pr.unmatched:
+        return pr.unmatched[0]
+    ls = re.findall(r"^/?\\?\s*l = (\d+)", pr.stdout, re.M) or re.findall(r"\bl = (\d+)", pr.stdout)
+    return int(ls[-1]) - 1 if ls else 1
+
+
+def judge_divergences(ck, name, c, s, w, max_reports=5):
+    """The real code left the ImplSpec on some TLC behaviours: ask the PropSpec about every kind of
+    divergence (the driver hands over a sample that covers every divergence signature)."""
+    divs = s["divergences"]
+    if not divs:
+        return
+    log(f"[{PID}] {name}: {s['divergent']} behaviours diverge from the ImplSpec prediction; signatures "
+        f"(predicted|observed event): {s.get('signatures')}; {len(divs)} of them go to the PropSpec")
+    lines = open(s["div_all"]).read().splitlines()
+    first = 0          # index into divs of the first behaviour not judged yet
+    reports = 0
+    while first < len(divs) and reports < max_reports:
+        base = divs[first]["start"] - 1
+        part = os.path.join(w, "div_part.ndjson")
+        open(part, "w").write("\n".join(lines[base:]) + "\n")
+        pr, _ = validate_trace(part, c["NSrc"], f"{PID}_div", impl=False)
+        if not rejected(pr):
+            break
+        pos = base + reject_position(pr)
+        k = max(i for i in range(first, len(divs)) if divs[i]["start"] <= pos)
+        d = divs[k]
         ck.violation({"kind": "behaviour", "property": PID, "config": name, "nsrc": c["NSrc"],
                       "behaviour": d.get("behaviour"),
-                      "divergence": {k: v for k, v in d.items() if k not in ("behaviour", "trace")},
+                      "divergence": {x: v for x, v in d.items() if x not in ("behaviour",)},
                       "violated_clause": pr.violated, "unmatched": pr.unmatched})
-    else:
-        log(f"[{PID}] drift: behaviour #{d.get('line')} of {name} diverged from the ImplSpec ({d.get('what')}: predicted "
-            f"{d.get('predicted')}, observed {d.get('observed')}) but the PropSpec accepts the observation")
+        reports += 1
+        first = k + 1
+    if reports == 0:
+        d = divs[0]
+        log(f"[{PID}] drift: {len(divs)} sampled divergent behaviours of {name} are all accepted by the PropSpec "
+            f"(e.g. behaviour #{d.get('line')}: predicted {d.get('predicted')}, observed {d.get('observed')})")
 
 
 def do_replay(ck, path):
@@ -338,8 +374,7 @@ def do_replay(ck, path):
         ck.traces = ck.evaluations = 1
         if not s["divergences"]:
             log(f"[{pid}] replay: behaviour now matches the ImplSpec prediction")
-        for d in s["divergences"]:
-            judge_divergence(ck, rp.get("config", "replay"), {"NSrc": rp["nsrc"]}, d)
+        judge_divergences(ck, rp.get("config", "replay"), {"NSrc": rp["nsrc"]}, s, w)
     else:
         tpath = os.path.join(w, "random.ndjson")
         vlib.run_driver("barriers", rp["args"] + [f"out={tpath}"])
